@@ -47,6 +47,7 @@ def cases(tier, seed, phase):
                    'queue': rng.choice(['250', '250', '250', '451', '550', '452r'])}
             cfg['tls'] = transport == 'smtp' and not cfg['ehlo500'] and rng.random() < 0.15
             cfg['auth'] = cfg['tls'] and rng.random() < 0.5
+            cfg['callables'] = rng.random() < 0.15
             if cfg['ehlo500']:
                 cfg.update(pipelining=False, eightbit=False, smtputf8=False, size=None)
             # without SMTPUTF8 a non-ASCII address cannot be sent: the relay must refuse (553), never deliver a changed address
@@ -292,7 +293,7 @@ def run_hop_smtp(case, model):
         tls_kw = {'context': tls_context(), 'auth': bool(cfg.get('auth'))}
         relay_kw = {'context': client_tls_context()}
         if cfg.get('auth'):
-            relay_kw['credentials'] = ('user', 'secret')
+            relay_kw['credentials'] = (lambda: ('user', 'secret')) if cfg.get('callables') else ('user', 'secret')
     edge = SmtpEdge(None, q, max_size=cfg['size'], validator_class=V, hostname='edge.example', **tls_kw)
 
     def creator(address):
@@ -301,8 +302,9 @@ def run_hop_smtp(case, model):
         taps.append(tap)
         gevent.spawn(edge.handle, tap, ('127.0.0.1', 40000))
         return a
-    relay = StaticSmtpRelay('edge.example', 25, socket_creator=creator, ehlo_as='relay.example', idle_timeout=0.5,
-                            command_timeout=3, data_timeout=3, **relay_kw)
+    # ehlo_as and credentials may be given as callables (the relay calls them per connection)
+    relay = StaticSmtpRelay('edge.example', 25, socket_creator=creator, ehlo_as=(lambda address: 'relay.example') if cfg.get('callables') else 'relay.example',
+                            idle_timeout=0.5, command_timeout=3, data_timeout=3, **relay_kw)
     orig_add = relay.add_client
 
     def add_client():
